@@ -12,13 +12,15 @@
 (* the call histories (TLC -simulate) that the harness plays through the real API.                   *)
 EXTENDS Pruners
 CONSTANTS Family,        \* which configuration grid
-          MaxTrials, MaxStep, MaxVal, MaxReports, WithNaN, WithFail
+          MaxTrials, MaxStep, MaxVal, MaxReports, WithNaN, FinishStates
 
 VARIABLES c,             \* the pruner configuration (chosen in Init)
           rungs,         \* rungs[t+1] = <<completed_rung_0, completed_rung_1, ...>> (system attrs)
           br,            \* br[t+1] = Hyperband bracket of trial t (arbitrary: stands for the crc32)
-          ok             \* was the last decision inside the envelope
-vars == <<trials, c, rungs, br, ok>>
+          ok,            \* was the last decision inside the envelope
+          calls          \* number of should_prune calls (counted in the "sim" family only, so that a
+                         \* call is a visible step of a simulated behaviour)
+vars == <<trials, c, rungs, br, ok, calls>>
 
 Dirs == {"min", "max"}
 Values == (0..MaxVal) \cup (IF WithNaN THEN {NaN} ELSE {})
@@ -42,26 +44,19 @@ Pat(D, P, M, W) ==
 Nop(D) == {[kind |-> "nop", dir |-> d] : d \in D}
 
 Cfgs ==
-  CASE Family = "pct" -> Pct({"percentile"}, Dirs, {25, 50, 75}, {0, 2}, {0, 1}, {1}, {1})
-                         \cup Pct({"percentile"}, Dirs, {25}, {1}, {1}, {2}, {2})
-                         \cup Pct({"median"}, Dirs, {50}, {1}, {0}, {2}, {1, 2})
-    [] Family = "thr" -> Thr({"min"}, {NoLo, 0, 1}, {0, 1, NoHi}, {0, 1, 2}, {1, 2, 3}) \cup Nop(Dirs)
+  CASE Family = "pct" -> Pct({"percentile"}, Dirs, {25, 75}, {0, 2}, {0, 1}, {1, 2}, {1})
+                         \cup Pct({"percentile"}, Dirs, {50}, {2}, {1}, {1}, {1, 2})
+                         \cup Pct({"percentile"}, Dirs, {0, 100}, {1}, {0}, {1}, {1})
+                         \cup Pct({"median"}, Dirs, {50}, {1, 3}, {0, 2}, {1}, {1})
+    [] Family = "thr" -> Thr({"min"}, {NoLo, 0, 1}, {0, 1, NoHi}, {0, 1, 2, 3}, {1, 2, 3}) \cup Nop(Dirs)
     [] Family = "pat" -> Pat(Dirs, {0, 1, 2}, {0, 1},
-                             {None} \cup Pct({"median"}, Dirs, {50}, {0}, {0}, {1}, {1})
-                                    \cup Thr(Dirs, {NoLo}, {0}, {1}, {1}))
-    [] Family = "sha" -> Sha(Dirs, {1, 2}, {2, 3}, {0, 1}, {0}) \cup Sha({"max"}, {1}, {2}, {0}, {1, 2})
-                         \cup Sha(Dirs, {0}, {2}, {0}, {0})
-    [] Family = "hb"  -> Hb(Dirs, {1}, {2, 4}, {2}, {0}) \cup Hb({"min"}, {1}, {2}, {2}, {1})
-    [] Family = "sim" ->
-         Pct({"percentile"}, Dirs, {0, 25, 50, 75, 100}, 0..3, 0..3, 1..3, {1, 2})
-         \cup Pct({"median"}, Dirs, {50}, 0..3, 0..3, 1..3, {1})
-         \cup Thr(Dirs, {NoLo, 0, 1, 2}, {1, 2, 3, NoHi}, 0..3, 1..3) \cup Nop(Dirs)
-         \cup Sha(Dirs, {0, 1, 2}, {2, 3, 4}, {0, 1}, {0, 0, 1, 2})
-         \cup Hb(Dirs, {1, 2}, {2, 4, 9}, {2, 3}, {0, 0, 1})
-         \cup Pat(Dirs, 0..2, {0, 1},
-                  {None} \cup Pct({"median"}, Dirs, {50}, {0, 1}, {0, 1}, {1, 2}, {1})
-                         \cup Thr(Dirs, {NoLo, 1}, {2, NoHi}, {0, 1}, {1, 2})
-                         \cup Sha(Dirs, {1}, {2}, {0}, {0}))
+                             {None} \cup Pct({"median"}, Dirs, {50}, {0}, {0, 2}, {1}, {1})
+                                    \cup Thr(Dirs, {NoLo}, {0}, {1}, {1, 2}))
+    [] Family = "sha" -> Sha(Dirs, {1}, {2}, {0}, {0}) \cup Sha({"min"}, {1}, {2}, {1}, {0})
+                         \cup Sha({"max"}, {2}, {3}, {0}, {0}) \cup Sha({"max"}, {1}, {2}, {0}, {1})
+                         \cup Sha({"min"}, {0}, {2}, {0}, {0})
+    [] Family = "hb"  -> Hb(Dirs, {1}, {2}, {2}, {0}) \cup Hb({"max"}, {1}, {2}, {2}, {1})
+    [] OTHER -> {}
 
 \* ------------------------------------------------------------------ algorithm-level models
 RT(t) == rungs[t + 1]
@@ -179,35 +174,43 @@ Algo(k, t) ==
 RECURSIVE NReports(_)
 NReports(n) == IF n = 0 THEN 0 ELSE Cardinality(DOMAIN trials[n].iv) + NReports(n - 1)
 
-Init == /\ PInit /\ c \in Cfgs /\ rungs = <<>> /\ br = <<>> /\ ok = TRUE
+\* Stateless pruners (percentile, median, threshold, nop, patient around those): the decision is a
+\* function of the history alone, so the configuration is not part of the state (c = All) and the
+\* theorems quantify over the whole grid in every reachable history.  Pruners with a memory
+\* (successive halving's completed_rung_k attributes, Hyperband) carry c in the state.
+All == [kind |-> "all"]
+Stateless == Family \in {"pct", "thr", "pat", "sim"}
+Init == /\ PInit /\ c \in (IF Stateless THEN {All} ELSE Cfgs) /\ rungs = <<>> /\ br = <<>> /\ ok = TRUE /\ calls = 0
 
 MCNewTrial ==
   /\ Len(trials) < MaxTrials
   /\ NewTrial
   /\ rungs' = Append(rungs, <<>>)
   /\ \E b \in 0..(IF c.kind = "hyperband" THEN NBrackets(c) - 1 ELSE 0) : br' = Append(br, b)
-  /\ UNCHANGED <<c, ok>>
+  /\ UNCHANGED <<c, ok, calls>>
 
 MCReport(t, s, v) ==
   /\ NReports(Len(trials)) < MaxReports
   /\ ReportVal(t, s, v)
-  /\ UNCHANGED <<c, rungs, br, ok>>
+  /\ UNCHANGED <<c, rungs, br, ok, calls>>
 
 \* should_prune(): the algorithm model (or, where there is none, any allowed answer) decides
 Decide(t) ==
   /\ Running(t)
-  /\ IF Modelled(c)
+  /\ IF c = All THEN UNCHANGED <<ok, rungs>>
+     ELSE IF Modelled(c)
      THEN LET a == Algo(c, t) IN
           /\ ok' = Allowed(c, t, a.d)
           /\ rungs' = [rungs EXCEPT ![t + 1] = a.r]
      ELSE /\ \E d \in BOOLEAN : Allowed(c, t, d)
           /\ ok' = TRUE /\ UNCHANGED rungs
+  /\ calls' = IF Family = "sim" THEN calls + 1 ELSE calls
   /\ UNCHANGED <<trials, c, br>>
 
 MCFinish(t, st) ==
-  /\ (st = "FAIL" => WithFail)
+  /\ st \in FinishStates
   /\ Finish(t, st)
-  /\ UNCHANGED <<c, rungs, br, ok>>
+  /\ UNCHANGED <<c, rungs, br, ok, calls>>
 
 TrialIds == 0..(MaxTrials - 1)
 Next == \/ MCNewTrial
@@ -217,11 +220,13 @@ Next == \/ MCNewTrial
 Spec == Init /\ [][Next]_vars
 
 \* ------------------------------------------------------------------ theorems
-AlgoWithinEnvelope  == ok
-EnvelopeSatisfiable == \A t \in Num : Running(t) => \E d \in BOOLEAN : Allowed(c, t, d)
+Grid == IF c = All THEN Cfgs ELSE {c}
+AlgoWithinEnvelope  == /\ ok
+                       /\ c = All => \A k \in Cfgs : \A t \in Num :
+                                       Running(t) /\ Modelled(k) => Allowed(k, t, Algo(k, t).d)
+EnvelopeSatisfiable == \A k \in Grid : \A t \in Num : Running(t) => \E d \in BOOLEAN : Allowed(k, t, d)
 CheckStepIsCode ==
   \A t \in Num : \A w \in 0..3 : \A i \in 1..3 :
      ~NoReports(t) /\ LastStep(t) >= w => (CheckStep(t, w, i) <=> CodeFirstInInterval(t, w, i))
-\* the envelope never protects an all-NaN trial from threshold, and nop is never allowed to prune
-NopNeverPrunes == c.kind = "nop" => \A t \in Num : ~MayPrune(c, t)
+NopNeverPrunes == \A k \in Grid : k.kind = "nop" => \A t \in Num : ~MayPrune(k, t)
 ==============================================================================
